@@ -44,7 +44,7 @@ def main(tier):
     for shp in shapes(tier):
         nr, nt, nsc, dirbc = shp
         sk = "nr=%d ntheta=%d nsc=%d DirBC=%s" % shp
-        regs, notes, S = eff_runs.run_shape(prog, nr, nt, nsc, dirbc)
+        regs, notes, S = eff_runs.run_shape(prog, nr, nt, nsc, dirbc, give_flags=((False, False),) if tier == "quick" else ((False, False), (True, False), (False, True)))
         for kind, o in notes:
             if kind == "oob":
                 ck.fail("R-C11-1", "out-of-range:%s" % o[0][0], o[0][3], "%s: access %s[%s] beyond length %s" % ((sk,) + o[0][:3]))
@@ -125,7 +125,7 @@ def main(tier):
     for qn, fns in whole.functions.items():
         for f in fns:
             sites = [ir.locstr(n) for n in ir.walk(f["body"]) if n.get("k") == "Omp" and n.get("dir", "").startswith("parallel")]
-            tasks = [n.get("dir") for n in ir.walk(f["body"]) if n.get("k") == "Omp" and n.get("dir") in ("task", "taskloop", "taskwait", "single", "critical", "atomic", "sections")]
+            tasks = [n.get("dir") for n in ir.walk(f["body"]) if n.get("k") == "Omp" and n.get("dir") in ("task", "taskloop", "taskwait", "taskgroup", "sections", "section")]
             if not sites and not tasks:
                 continue
             total += 1
